@@ -60,8 +60,9 @@ int main(int argc, char **argv) {
 #endif
     if (opt.extra.count("N")) N = atoi(opt.extra["N"].c_str());
     bool do_families = !opt.extra.count("nofamilies");
+    bool asan_quick = false;   // ASan quick tier: only the long-run family and a thin slice of the seam family, on a few configurations
 #ifdef VERIF_ASAN
-    do_families = thorough;
+    asan_quick = !thorough;
 #endif
 
     std::vector<Task> tasks;
@@ -85,6 +86,16 @@ int main(int argc, char **argv) {
             auto &e = reg[c];
             int fam = e.tier / 10;   // bit 0: seam family, bit 1: blocks family, bit 2: density family
             bool wide = e.key_class >= 4;
+            if (asan_quick) {
+                static const char *few[] = {"pgm<u64,1,1,float>", "pgm<f64,1,1,double>", "compressed<u64,1,1,float>", "bucketing<u64,1,3,0>", "eliasfano<u64,1,float>"};
+                bool sel = false; for (auto *n : few) if (!strcmp(n, e.name)) sel = true;
+                if (!sel) continue;
+                for (long p : {2L, 20L}) {
+                    for (long j = 0; j < p; ++j) { if (p == 20 && j > 1 && j < 18) continue; for (long len : {1L, 2L}) { if (j + len > p) continue; Task t; t.cfg = c; t.kind = 4; t.n = 32768; t.p = p; t.seam = j; t.rep = len; tasks.push_back(t); } }
+                    for (long w = 0; w < 4096; w += 512) { Task t; t.cfg = c; t.kind = 1; t.n = 32768; t.p = p; t.seam = 0; t.word_lo = w + 37; t.word_hi = w + 45; tasks.push_back(t); }
+                }
+                continue;
+            }
             if ((fam & 1) && wide) {
                 std::vector<long> ps = thorough ? std::vector<long>{2, 3, 4, 5, 7, 16, 19, 20} : std::vector<long>{2, 20};
                 std::vector<long> deltas = thorough ? std::vector<long>{0, 1, 7} : std::vector<long>{0};
